@@ -74,6 +74,28 @@ Proof.
   - cbn [app] in H. inversion H; subst. destruct (IH a' ltac:(lia) H2) as [-> ->]. split; reflexivity.
 Qed.
 
+Lemma nth_upd_same {A} (dflt : A) : forall d x l, (d < length l)%nat -> nth d (upd d x l) dflt = x.
+Proof. induction d as [|d IH]; intros x [|h t] Hd; cbn [length] in Hd; try lia; cbn [upd nth]; [reflexivity|apply IH; lia]. Qed.
+
+Lemma nth_upd_other {A} (dflt : A) : forall d d' x l, d <> d' -> nth d' (upd d x l) dflt = nth d' l dflt.
+Proof.
+  induction d as [|d IH]; intros [|d'] x [|h t] Hne; cbn [upd nth]; try reflexivity; try lia.
+  apply IH. lia.
+Qed.
+
+Lemma Forall2_nth {A B} (R : A -> B -> Prop) a b : forall l1 l2 d,
+  Forall2 R l1 l2 -> (d < length l1)%nat -> R (nth d l1 a) (nth d l2 b).
+Proof.
+  intros l1 l2 d H. revert d. induction H as [|x y l1 l2 Hxy Hr IH]; intros d Hd; cbn [length] in Hd; [lia|].
+  destruct d; cbn [nth]; [exact Hxy|apply IH; lia].
+Qed.
+
+Lemma Forall_nth_elim {A} (P : A -> Prop) l d a : Forall P l -> (d < length l)%nat -> P (nth d l a).
+Proof. intros H Hd. rewrite Forall_forall in H. apply H. apply nth_In. exact Hd. Qed.
+
+Lemma nth_map_const {A B} (c : B) : forall (l : list A) d, nth d (map (fun _ => c) l) c = c.
+Proof. induction l as [|x l IH]; intros [|d]; cbn [map nth]; auto. Qed.
+
 Lemma affine_addr_app : forall pre ipre ts is, length ipre = length pre ->
   affine_addr (pre ++ ts) (ipre ++ is) = affine_addr pre ipre + affine_addr ts is.
 Proof.
@@ -174,49 +196,17 @@ Qed.
 Lemma mixed_radix_step c q q' r r' : 0 <= r < c -> 0 <= r' < c -> c * q + r = c * q' + r' -> q = q' /\ r = r'.
 Proof. intros Hr Hr' H. assert (q = q') by nia. subst. lia. Qed.
 
-Section Step.
-  Variables (tiled : bool) (spatial bw : Z) (s : sched) (shape : list Z).
-  Hypothesis Hshape : Forall (fun n => 0 < n) shape.
-  Hypothesis Hrows : length (s_rows s) = length shape.
-
-  Definition step_c (st : lstate) (c : nat * Z * list Z) : lstate :=
-    assign_step tiled spatial bw s shape st (fst (fst c)) (snd (fst c)) (snd c).
-
-  (* the bound chosen for the new stride *)
-  Definition chosen_bound (st : lstate) (d : nat) (sb : Z) : Z :=
-    let cur := nth d (snd st) [] in
-    let remaining := nth d shape 0 / bounds_prod cur in
-    if tiled && (remaining mod sb =? 0) && negb (breaks_rect (nth d (s_rows s) []) (s_bounds s) sb)
-    then sb else remaining.
-
-  Lemma chosen_bound_cases st d sb :
-    let P := bounds_prod (nth d (snd st) []) in
-    let n := nth d shape 0 in
-    (chosen_bound st d sb = sb /\ (n / P) mod sb = 0) \/ chosen_bound st d sb = n / P.
-  Proof.
-    cbv zeta. unfold chosen_bound.
-    match goal with |- context [if ?c then _ else _] => destruct c eqn:E end.
-    - left. split; [reflexivity|]. apply andb_true_iff in E as [E _]. apply andb_true_iff in E as [_ E]. apply Z.eqb_eq in E. exact E.
-    - right. reflexivity.
-  Qed.
-
-  Lemma step_preserves st k sb col :
-    Inv shape st -> 0 < sb -> length col = length (s_rows s) ->
-    Inv shape (assign_step tiled spatial bw s shape st k sb col).
-  Proof.
-    intros HI Hsb Hcol. unfold assign_step.
-    destruct (first_nz col) as [d|] eqn:Ed; [|exact HI].
+Lemma push_preserves shape st d c1 lb :
+  Forall (fun n => 0 < n) shape -> Inv shape st -> (d < length shape)%nat -> fst st <= c1 -> 0 < lb ->
+  (lb * bounds_prod (nth d (snd st) []) | nth d shape 0) ->
+  Inv shape (c1 * lb, upd d ((Some c1, Some lb) :: nth d (snd st) []) (snd st)).
+Proof.
+    intros Hshape HI Hd Hc1 Hlbpos Hlbdiv0.
     destruct st as [cs strs]. destruct HI as [Hcs Hlen Hpos Hdiv Hbnd Hinj]. cbn [fst snd] in *.
-    pose proof (first_nz_lt _ _ Ed) as Hd. rewrite Hcol, Hrows in Hd.
-    set (c1 := ensure_access_granularity spatial bw cs (Z.of_nat k)).
-    assert (Hc1 : cs <= c1) by apply ega_ge.
-    cbv zeta. cbn [fst snd].
     assert (Hdl : (d < length strs)%nat) by (rewrite Hlen; exact Hd).
     set (t := nth d strs []).
-    match goal with |- context [Some (if ?c then sb else ?r)] => set (cond := c); set (lb := if cond then sb else r) end.
     destruct (upd_split [] d strs ((Some c1, Some lb) :: t) Hdl) as (pre & post & Es0 & Epre & Eupd).
     assert (Es : strs = pre ++ t :: post) by exact Es0. clear Es0.
-    (* split the shape and the divisibility facts at d *)
     pose proof Hdiv as Hdiv'. rewrite Es in Hdiv'.
     destruct (Forall2_split_nth _ _ _ _ _ Hdiv') as (spre & n & spost & Esh & Elsp & Dpre & Dt & Dpost).
     assert (Hd' : d = length spre) by (rewrite Elsp; exact (eq_sym Epre)).
@@ -226,19 +216,9 @@ Section Step.
     assert (Htpos : tile_pos t).
     { rewrite Forall_forall in Hpos. apply Hpos. rewrite Es. apply in_or_app. right. left. reflexivity. }
     pose proof (bounds_prod_pos t (tile_pos_ok t Htpos)) as HP.
-    destruct Dt as [m Hm0]. assert (Hm : n = m * bounds_prod t) by exact Hm0. clear Hm0.
-    assert (Hmpos : 0 < m) by (apply (Z.mul_pos_cancel_r _ _ HP); lia).
-    assert (Hrem : n / bounds_prod t = m) by (rewrite Hm; apply Z.div_mul; lia).
-    (* the chosen bound is positive and keeps divisibility *)
-    assert (Hlb : 0 < lb /\ (lb * bounds_prod t | n)).
-    { subst lb. destruct cond eqn:E.
-      - subst cond. apply andb_true_iff in E as [E _]. apply andb_true_iff in E as [_ E].
-        apply Z.eqb_eq in E. rewrite Hn, Hrem in E. split; [lia|].
-        apply Z.mod_divide in E; [|lia]. destruct E as [q Hq]. exists q. rewrite Hm, Hq. lia.
-      - rewrite Hn, Hrem. split; [lia|]. exists 1. lia. }
-    destruct Hlb as [Hlbpos Hlbdiv].
+    assert (Hlbdiv : (lb * bounds_prod t | n)) by (rewrite <- Hn; exact Hlbdiv0).
     match goal with |- Inv _ (_, ?u) => replace u with (pre ++ ((Some c1, Some lb) :: t) :: post) by (symmetry; exact Eupd) end.
-    clear Eupd. clearbody lb. clear cond. clearbody t. clearbody c1.
+    clear Eupd Hlbdiv0. clearbody t.
     assert (Hnewpos : tile_pos ((Some c1, Some lb) :: t)).
     { constructor; [|exact Htpos]. exists c1, lb. repeat split; lia. }
     (* decomposition of an index of the new box *)
@@ -283,6 +263,42 @@ Section Step.
       assert (x = y).
       { rewrite (Z.div_mod x (bounds_prod t)) by lia. rewrite (Z.div_mod y (bounds_prod t)) by lia. rewrite Eq, Hmod. reflexivity. }
       subst. reflexivity.
+Qed.
+
+Section Step.
+  Variables (tiled : bool) (spatial bw : Z) (s : sched) (shape : list Z).
+  Hypothesis Hshape : Forall (fun n => 0 < n) shape.
+  Hypothesis Hrows : length (s_rows s) = length shape.
+
+  Definition step_c (st : lstate) (c : nat * Z * list Z) : lstate :=
+    assign_step tiled spatial bw s shape st (fst (fst c)) (snd (fst c)) (snd c).
+
+  Lemma step_preserves st k sb col :
+    Inv shape st -> 0 < sb -> length col = length (s_rows s) ->
+    Inv shape (assign_step tiled spatial bw s shape st k sb col).
+  Proof.
+    intros HI Hsb Hcol. unfold assign_step.
+    destruct (first_nz col) as [d|] eqn:Ed; [|exact HI].
+    pose proof (first_nz_lt _ _ Ed) as Hd. rewrite Hcol, Hrows in Hd.
+    cbv zeta.
+    match goal with |- context [Some (if ?c then sb else ?r)] => set (cond := c); set (lb := if cond then sb else r) end.
+    assert (Hdl : (d < length (snd st))%nat) by (rewrite (inv_len _ _ HI); exact Hd).
+    assert (Htp : tile_pos (nth d (snd st) [])) by (apply Forall_nth_elim; [exact (inv_pos _ _ HI)|exact Hdl]).
+    pose proof (bounds_prod_pos _ (tile_pos_ok _ Htp)) as HP.
+    pose proof (Forall2_nth _ [] 0 _ _ d (inv_div _ _ HI) Hdl) as Hdv. cbn beta in Hdv.
+    assert (Hn : 0 < nth d shape 0) by (apply (Forall_nth_elim (fun n => 0 < n)); [exact Hshape|exact Hd]).
+    destruct Hdv as [m Hm].
+    assert (Hmpos : 0 < m) by (apply (Z.mul_pos_cancel_r _ _ HP); apply (Z.lt_le_trans _ _ _ Hn); apply Z.eq_le_incl; exact Hm).
+    assert (HPne : bounds_prod (nth d (snd st) []) <> 0) by (apply Z.neq_sym, Z.lt_neq; exact HP).
+    assert (Hrem : nth d shape 0 / bounds_prod (nth d (snd st) []) = m) by (rewrite Hm; apply Z.div_mul; exact HPne).
+    apply push_preserves; try assumption.
+    - apply ega_ge.
+    - subst lb. destruct cond eqn:E; [lia|]. rewrite Hrem. exact Hmpos.
+    - subst lb. destruct cond eqn:E.
+      + subst cond. apply andb_true_iff in E as [E _]. apply andb_true_iff in E as [_ E].
+        apply Z.eqb_eq in E. rewrite Hrem in E.
+        apply Z.mod_divide in E; [|lia]. destruct E as [q Hq]. exists q. rewrite Hm, Hq. rewrite Z.mul_assoc. reflexivity.
+      + rewrite Hrem. exists 1. rewrite Z.mul_1_l. exact Hm.
   Qed.
 End Step.
 
@@ -328,95 +344,180 @@ Proof.
   apply (loop_preserves tiled spatial bw s shape Hs Hr (rev_columns s) _ (rev_columns_ok s Hb) (Inv_init shape Hs)).
 Qed.
 
-Definition fill1 (c : Z) (t : tstride) : tstride := match t with [] => [(Some c, Some 1)] | _ => t end.
-Lemma fill_up_map st : fill_up st = map (fill1 (fst st)) (snd st).
-Proof. reflexivity. Qed.
-
-Lemma fill1_pos c t : 0 < c -> tile_pos t -> tile_pos (fill1 c t).
+(* ---- the fill-up after the loop (repaired code) ------------------------------------------ *)
+Lemma fill_step_spec shape st d : Forall (fun n => 0 < n) shape -> Inv shape st -> (d < length shape)%nat ->
+  Inv shape (fill_step shape st d) /\
+  bounds_prod (nth d (snd (fill_step shape st d)) []) = nth d shape 0 /\
+  (forall d', d' <> d -> nth d' (snd (fill_step shape st d)) [] = nth d' (snd st) []).
 Proof.
-  intros Hc Ht. destruct t; [|exact Ht]. constructor; [|constructor]. exists c, 1. repeat split; lia.
+  intros Hs HI Hd.
+  assert (Hdl : (d < length (snd st))%nat) by (rewrite (inv_len _ _ HI); exact Hd).
+  assert (Htp : tile_pos (nth d (snd st) [])) by (apply Forall_nth_elim; [exact (inv_pos _ _ HI)|exact Hdl]).
+  pose proof (bounds_prod_pos _ (tile_pos_ok _ Htp)) as HP.
+  pose proof (Forall2_nth _ [] 0 _ _ d (inv_div _ _ HI) Hdl) as Hdv. cbn beta in Hdv.
+  assert (Hn : 0 < nth d shape 0) by (apply (Forall_nth_elim (fun n => 0 < n)); [exact Hs|exact Hd]).
+  destruct Hdv as [m Hm].
+  assert (Hmpos : 0 < m) by (apply (Z.mul_pos_cancel_r _ _ HP); apply (Z.lt_le_trans _ _ _ Hn); apply Z.eq_le_incl; exact Hm).
+  assert (HPne : bounds_prod (nth d (snd st) []) <> 0) by (apply Z.neq_sym, Z.lt_neq; exact HP).
+  assert (Hrem : nth d shape 0 / bounds_prod (nth d (snd st) []) = m) by (rewrite Hm; apply Z.div_mul; exact HPne).
+  unfold fill_step. cbv zeta. rewrite Hrem.
+  destruct ((match nth d (snd st) [] with [] => true | _ => false end) || (m >? 1)) eqn:E.
+  - split; [|split].
+    + apply push_preserves; try assumption; [apply Z.le_refl|]. exists 1. rewrite Z.mul_1_l. exact Hm.
+    + cbn [snd]. rewrite nth_upd_same by exact Hdl. rewrite bounds_prod_cons_pos by exact Hmpos. symmetry. exact Hm.
+    + intros d' Hne. cbn [snd]. apply nth_upd_other. auto.
+  - split; [exact HI|]. split; [|reflexivity].
+    apply orb_false_iff in E as [_ E]. assert (Hm1 : m = 1) by lia. symmetry. rewrite Hm, Hm1. apply Z.mul_1_l.
 Qed.
-Lemma fill1_prod c t : bounds_prod (fill1 c t) = bounds_prod t.
-Proof. destruct t; reflexivity. Qed.
-Lemma fill1_addr c t x : 0 <= x < bounds_prod t -> dim_addr (fill1 c t) x = dim_addr t x.
-Proof.
-  destruct t; [|reflexivity]. intros Hx. change (bounds_prod []) with 1 in Hx.
-  assert (x = 0) by lia. subst. cbn. lia.
-Qed.
 
-Lemma fill_up_spec c strs : 0 < c -> Forall tile_pos strs ->
-  Forall tile_pos (map (fill1 c) strs) /\ pshape (map (fill1 c) strs) = pshape strs /\
-  forall idx, box (pshape strs) idx -> affine_addr (map (fill1 c) strs) idx = affine_addr strs idx.
+Lemma fill_fold_spec shape : Forall (fun n => 0 < n) shape ->
+  forall ds st, Inv shape st -> (forall d, In d ds -> (d < length shape)%nat) -> NoDup ds ->
+  let st' := fold_left (fill_step shape) ds st in
+  Inv shape st' /\
+  (forall d, In d ds -> bounds_prod (nth d (snd st') []) = nth d shape 0) /\
+  (forall d, ~ In d ds -> nth d (snd st') [] = nth d (snd st) []).
 Proof.
-  intros Hc Hp. split; [|split].
-  - apply Forall_forall. intros t Ht. apply in_map_iff in Ht as [t0 [<- Hin]]. apply fill1_pos; [exact Hc|].
-    rewrite Forall_forall in Hp. apply Hp, Hin.
-  - unfold pshape. rewrite map_map. apply map_ext. intros t. apply fill1_prod.
-  - clear Hp. induction strs as [|t strs IH]; intros idx Hb; [reflexivity|].
-    unfold box, pshape in Hb. cbn [map] in Hb. inversion Hb as [|x ? idx' ? Hx Hrest]; subst.
-    cbn [map affine_addr]. rewrite fill1_addr by exact Hx. f_equal. apply IH. exact Hrest.
+  intros Hs. induction ds as [|d ds IH]; intros st HI Hlt Hnd; cbn [fold_left].
+  - split; [exact HI|]. split; [intros d []|reflexivity].
+  - inversion Hnd as [|? ? Hnotin Hnd']; subst.
+    destruct (fill_step_spec shape st d Hs HI (Hlt d (or_introl eq_refl))) as (HI1 & Hp1 & Ho1).
+    destruct (IH (fill_step shape st d) HI1 (fun x Hx => Hlt x (or_intror Hx)) Hnd') as (HI2 & Hp2 & Ho2).
+    split; [exact HI2|]. split.
+    + intros x [->|Hx]; [|apply Hp2, Hx]. rewrite (Ho2 x Hnotin). exact Hp1.
+    + intros x Hx. rewrite Ho2 by (intros H; apply Hx; right; exact H). apply Ho1. intros ->. apply Hx. left. reflexivity.
 Qed.
 
 Lemma raw_layout_facts tiled spatial bw s shape : wf_input s shape ->
-  let st := assign_loop tiled spatial bw s shape in
+  let st := fill_up shape (assign_loop tiled spatial bw s shape) in
   let raw := raw_layout tiled spatial bw s shape in
-  layout_ok raw /\ shape_of raw = pshape (snd st) /\
-  forall idx, box (pshape (snd st)) idx -> affine_map_eval raw idx = affine_addr (snd st) idx.
+  Inv shape st /\ layout_ok raw /\ shape_of raw = shape /\ pshape (snd st) = shape /\
+  forall idx, affine_map_eval raw idx = affine_addr (snd st) idx.
 Proof.
-  intros Hwf st raw. pose proof (assign_loop_inv tiled spatial bw s shape Hwf) as HI. fold st in HI.
-  destruct (fill_up_spec (fst st) (snd st) (inv_cs _ _ HI) (inv_pos _ _ HI)) as (F1 & F2 & F3).
-  unfold raw, raw_layout. fold st. rewrite fill_up_map. split; [|split].
-  - unfold layout_ok. cbn [tstrides]. eapply Forall_impl; [|exact F1]. apply tile_pos_ok.
-  - unfold shape_of. cbn [tstrides]. exact F2.
-  - intros idx Hb. unfold affine_map_eval. cbn [tstrides]. apply F3, Hb.
+  intros Hwf st raw. pose proof (assign_loop_inv tiled spatial bw s shape Hwf) as HI0.
+  destruct Hwf as (Hb & Hs & Hr).
+  destruct (fill_fold_spec shape Hs (seq 0 (length shape)) _ HI0
+              (fun d Hd => proj2 (proj1 (in_seq _ _ _) Hd)) (seq_NoDup _ _)) as (HI & Hp & _).
+  fold (fill_up shape (assign_loop tiled spatial bw s shape)) in HI, Hp. fold st in HI, Hp.
+  assert (Hsh : pshape (snd st) = shape).
+  { unfold pshape. apply (nth_ext _ _ (bounds_prod []) 0).
+    - rewrite map_length. exact (inv_len _ _ HI).
+    - intros d Hd. rewrite map_length in Hd. rewrite (map_nth bounds_prod). apply Hp. apply in_seq.
+      rewrite <- (inv_len _ _ HI). lia. }
+  split; [exact HI|]. split; [|split; [|split]].
+  - unfold raw, raw_layout, layout_ok. cbn [tstrides]. fold st. eapply Forall_impl; [|exact (inv_pos _ _ HI)]. apply tile_pos_ok.
+  - unfold raw, raw_layout, shape_of. cbn [tstrides]. exact Hsh.
+  - exact Hsh.
+  - intros idx. reflexivity.
 Qed.
 
-(* layout_injective (on the layout's own index box): for all schedules (any dimension order, reduction and
-   broadcast dimensions, any coefficients), positive bounds and shapes, element widths and both modes, two
-   distinct indices never get the same address *)
-Theorem layout_injective_own tiled spatial bw s shape : wf_input s shape ->
-  let L := assign_layout tiled spatial bw s shape in
-  forall i j, box (shape_of L) i -> box (shape_of L) j ->
-    affine_map_eval L i = affine_map_eval L j -> i = j.
+(* layout_covers: for every schedule with positive bounds and every positive operand shape the tile bounds
+   of every dimension multiply to the operand dimension *)
+Theorem layout_covers tiled spatial bw s shape : wf_input s shape ->
+  shape_of (assign_layout tiled spatial bw s shape) = shape.
 Proof.
-  intros Hwf L i j Hi Hj Heq.
-  destruct (raw_layout_facts tiled spatial bw s shape Hwf) as (R1 & R2 & R3).
-  pose proof (assign_loop_inv tiled spatial bw s shape Hwf) as HI.
-  unfold L, assign_layout in *. rewrite canonicalize_shape in Hi, Hj by exact R1.
-  rewrite !canonicalize_affine_map in Heq by assumption.
-  rewrite R2 in Hi, Hj. rewrite !R3 in Heq by assumption.
-  exact (inv_inj _ _ HI i j Hi Hj Heq).
-Qed.
-
-(* every address is non-negative and the layout offset is 0 *)
-Theorem layout_addr_nonneg tiled spatial bw s shape : wf_input s shape ->
-  let L := assign_layout tiled spatial bw s shape in
-  offset L = Some 0 /\ forall i, box (shape_of L) i -> 0 <= affine_map_eval L i.
-Proof.
-  intros Hwf L. split; [reflexivity|]. intros i Hi.
-  destruct (raw_layout_facts tiled spatial bw s shape Hwf) as (R1 & R2 & R3).
-  pose proof (assign_loop_inv tiled spatial bw s shape Hwf) as HI.
-  unfold L, assign_layout in *. rewrite canonicalize_shape in Hi by exact R1.
-  rewrite canonicalize_affine_map by assumption. rewrite R2 in Hi. rewrite R3 by assumption.
-  apply (inv_bnd _ _ HI i Hi).
-Qed.
-
-(* existing_bound | shape at every point: the tile bounds of every dimension multiply to a divisor of the
-   operand dimension, so `shape // existing_bound` never floors *)
-Theorem layout_divides tiled spatial bw s shape : wf_input s shape ->
-  Forall2 (fun p n => (p | n)) (shape_of (assign_layout tiled spatial bw s shape)) shape.
-Proof.
-  intros Hwf. destruct (raw_layout_facts tiled spatial bw s shape Hwf) as (R1 & R2 & _).
-  pose proof (assign_loop_inv tiled spatial bw s shape Hwf) as HI.
-  unfold assign_layout. rewrite canonicalize_shape by exact R1. rewrite R2.
-  pose proof (inv_div _ _ HI) as Hd. unfold pshape.
-  revert Hd. generalize (snd (assign_loop tiled spatial bw s shape)). clear.
-  intros l Hd. induction Hd; cbn [map]; constructor; assumption.
+  intros Hwf. destruct (raw_layout_facts tiled spatial bw s shape Hwf) as (_ & R1 & R2 & _).
+  unfold assign_layout. rewrite canonicalize_shape by exact R1. exact R2.
 Qed.
 
 Lemma assign_layout_ok tiled spatial bw s shape : wf_input s shape ->
   layout_ok (assign_layout tiled spatial bw s shape).
 Proof.
-  intros Hwf. destruct (raw_layout_facts tiled spatial bw s shape Hwf) as (R1 & _).
+  intros Hwf. destruct (raw_layout_facts tiled spatial bw s shape Hwf) as (_ & R1 & _).
   apply canonicalize_ok. exact R1.
+Qed.
+
+(* layout_injective: for all schedules (any dimension order, reduction and broadcast dimensions, any
+   coefficients, bounds not dividing the shape), positive bounds and shapes, element widths, template ranks
+   and both modes, two distinct elements of the operand never get the same address; addresses are >= 0 *)
+Theorem layout_injective tiled spatial bw s shape : wf_input s shape ->
+  let L := assign_layout tiled spatial bw s shape in
+  forall i j, box shape i -> box shape j -> affine_map_eval L i = affine_map_eval L j -> i = j.
+Proof.
+  intros Hwf L i j Hi Hj Heq.
+  destruct (raw_layout_facts tiled spatial bw s shape Hwf) as (HI & R1 & R2 & R3 & R4).
+  unfold L, assign_layout in Heq.
+  rewrite !canonicalize_affine_map in Heq by (try exact R1; rewrite R2; assumption).
+  rewrite !R4 in Heq. rewrite <- R3 in Hi, Hj.
+  exact (inv_inj _ _ HI i j Hi Hj Heq).
+Qed.
+
+Theorem layout_addr_nonneg tiled spatial bw s shape : wf_input s shape ->
+  let L := assign_layout tiled spatial bw s shape in
+  offset L = Some 0 /\ forall i, box shape i -> 0 <= affine_map_eval L i.
+Proof.
+  intros Hwf L. split; [reflexivity|]. intros i Hi.
+  destruct (raw_layout_facts tiled spatial bw s shape Hwf) as (HI & R1 & R2 & R3 & R4).
+  unfold L, assign_layout. rewrite canonicalize_affine_map by (try exact R1; rewrite R2; assumption).
+  rewrite R4. rewrite <- R3 in Hi. apply (inv_bnd _ _ HI i Hi).
+Qed.
+
+Lemma covers_true shape l : covers shape l = true <-> shape_of l = shape.
+Proof. unfold covers. apply list_eqb_eq. intros x y. apply Z.eqb_eq. Qed.
+
+(* ================================================================================ *)
+(* 7. no self overlap: all_values has no duplicates                                   *)
+(* ================================================================================ *)
+Lemma NoDup_app_intro {A} (a b : list A) : NoDup a -> NoDup b -> (forall x, In x a -> ~ In x b) -> NoDup (a ++ b).
+Proof.
+  induction a as [|x a IH]; intros Ha Hb Hd; [exact Hb|]. inversion Ha; subst. cbn [app]. constructor.
+  - intros Hin. apply in_app_or in Hin as [Hin|Hin]; [contradiction|]. apply (Hd x); [left; reflexivity|exact Hin].
+  - apply IH; [assumption|assumption|]. intros y Hy. apply Hd. right. exact Hy.
+Qed.
+
+Lemma NoDup_map_inj_in {A B} (f : A -> B) l :
+  (forall x y, In x l -> In y l -> f x = f y -> x = y) -> NoDup l -> NoDup (map f l).
+Proof.
+  induction l as [|x l IH]; intros Hinj Hnd; [constructor|]. inversion Hnd; subst. cbn [map]. constructor.
+  - intros Hin. apply in_map_iff in Hin as [y [Hy Hyin]].
+    assert (y = x) by (apply Hinj; [right; exact Hyin|left; reflexivity|exact Hy]). subst. contradiction.
+  - apply IH; [|assumption]. intros a b Ha Hb. apply Hinj; right; assumption.
+Qed.
+
+Lemma NoDup_zrange n : NoDup (zrange n).
+Proof.
+  unfold zrange. apply NoDup_map_inj_in; [|apply seq_NoDup]. intros x y _ _ H. lia.
+Qed.
+
+Lemma NoDup_row_major shape : NoDup (row_major shape).
+Proof.
+  induction shape as [|n shape IH]; cbn [row_major]; [constructor; [intros []|constructor]|].
+  generalize (NoDup_zrange n). generalize (zrange n). intros l Hl.
+  induction l as [|i l IHl]; cbn [flat_map]; [constructor|]. inversion Hl; subst.
+  apply NoDup_app_intro.
+  - apply NoDup_map_inj_in; [|exact IH]. intros x y _ _ H. inversion H. reflexivity.
+  - apply IHl. assumption.
+  - intros x Hx Hx'. apply in_map_iff in Hx as [r [<- _]].
+    apply in_flat_map in Hx' as [i' [Hi' Hx']]. apply in_map_iff in Hx' as [r' [Hr' _]].
+    inversion Hr'; subst. contradiction.
+Qed.
+
+Theorem layout_no_self_overlap tiled spatial bw s shape : wf_input s shape ->
+  NoDup (all_values (assign_layout tiled spatial bw s shape)).
+Proof.
+  intros Hwf. rewrite <- (affine_map_all_values _ (assign_layout_ok tiled spatial bw s shape Hwf)).
+  rewrite (layout_covers tiled spatial bw s shape Hwf).
+  apply NoDup_map_inj_in; [|apply NoDup_row_major].
+  intros x y Hx Hy. apply in_row_major in Hx, Hy.
+  apply (layout_injective tiled spatial bw s shape Hwf); assumption.
+Qed.
+
+(* ================================================================================ *)
+(* 8. operands with an explicit TSL layout                                            *)
+(* ================================================================================ *)
+Theorem explicit_layout_untouched tiled spatial bounds ops :
+  (exists o, In o ops /\ o_layout o <> None) -> rewrite_schedule tiled spatial bounds ops = None.
+Proof.
+  intros [o [Hin Hl]]. unfold rewrite_schedule.
+  replace (existsb _ ops) with true; [reflexivity|]. symmetry. apply existsb_exists.
+  exists o. split; [exact Hin|]. destruct (o_layout o); [reflexivity|contradiction].
+Qed.
+
+Theorem rewrite_schedule_all tiled spatial bounds ops :
+  (forall o, In o ops -> o_layout o = None) ->
+  rewrite_schedule tiled spatial bounds ops =
+    Some (map (fun o => assign_layout tiled spatial (o_bw o) (mkSched bounds (o_rows o)) (o_shape o)) ops).
+Proof.
+  intros H. unfold rewrite_schedule.
+  replace (existsb _ ops) with false; [reflexivity|]. symmetry. apply not_true_is_false. intros He.
+  apply existsb_exists in He as [o [Hin Ho]]. rewrite (H o Hin) in Ho. discriminate.
 Qed.
